@@ -23,6 +23,11 @@ NA = {
 PENDING_REASON = "check under construction in this session (engine designed in DESIGN.md section 4, not yet registered)"
 
 CHECKS = {
+ "C04": dict(engine="layoutsim", category="exploration", design_ref="4.1",
+   text="seeded search over fixed-size schemas x histories of generate() calls on long-lived encoders (re-layouts, raising calls, encoder replacement, unrolling on/off); every call is judged against a reference layout computed from the schema description (tiling, field-id order, wire widths, unique names), against a brand-new encoder (history independence), against snapshots of all earlier results (no retroactive change) and for option isolation; sampling, not proof",
+   note="trusts the 40-line reference layout (written from the property text) and the schema renderer; shapes the encoder documents as unsupported are counted, not judged",
+   technique="deterministic simulation of call histories on stateful encoders (seeded operation sequences, reference model + fresh-instance oracle)",
+   kind="deterministic simulation: seeded histories of generate() calls on long-lived PackedEncoders, reference layout model"),
  "C19": dict(engine="schedsim", category="exploration", design_ref="4.6",
    text="seeded search over schemas x call histories of the real generated scheduler (compiled C) under simulated clocks, checked call by call against a reference automaton in unwrapped time plus history checks (no double send within P, no send without period, bounded liveness, cross-device isolation); sampling, not proof",
    note="trusts gcc -O1/x86-64, the generated can_encode_msg_* as packing reference, and the 40-line reference automaton; fields limited to 8/16/32/64-bit integers; clock deltas < 2^32 - Pmax",
